@@ -33,9 +33,15 @@ def jsonable(obj: Any, depth: int = 0) -> Any:
     return repr(obj)
 
 
+class EnoughViolations(BaseException):
+    """raised by Recorder.monitor once a shard has recorded STOP_AFTER violations: the verdict of the run is decided (violated), going on
+    would only cost time - broken code often turns every case into a slow one (hangs that run into the iteration budget)"""
+
+
 class Recorder:
     MAX_SAMPLES = 8
     MAX_WITNESSES = 400
+    STOP_AFTER = 1500  # violations per shard that do not belong to a listed known finding
 
     def __init__(self, pid: str, tier: str, seed: int, shard: int = 0, nshards: int = 1) -> None:
         self.pid, self.tier, self.seed, self.shard, self.nshards = pid, tier, seed, shard, nshards
@@ -49,6 +55,9 @@ class Recorder:
         self._sample_keys: set[str] = set()
         self.inconclusive: list[str] = []
         self.flags: dict[str, Any] = {}
+        self.violated_total = 0
+        self.stop_after: int | None = None  # set by the worker; None = never stop early
+        self.is_known: Any = None  # (monitor name, where) -> bool: violations that belong to a listed known finding do not count
 
     # ---- cases -------------------------------------------------------------------------------
     def case(self, key: Any, nontrivial: bool) -> None:
@@ -107,6 +116,11 @@ class Recorder:
                     self.counters["violations_beyond_witness_cap"] += 1
             else:
                 v["count"] += 1
+            if self.is_known is None or not self.is_known(name, w):
+                self.violated_total += 1
+            if self.stop_after is not None and self.violated_total >= self.stop_after:
+                self.stop_after = None
+                raise EnoughViolations(f"{self.violated_total} violations recorded by shard {self.shard}")
         return verdict
 
     def touch(self, name: str) -> None:
